@@ -40,9 +40,10 @@ Record world := {
   registry : option reg;        (* .exception_registry.json in the core dir; None = no such file *)
   aliases  : option (list N);   (* classes in exception_aliases.py, as codes; None = core not emitted *)
   clients  : reg;               (* generated client packages -> codes whose classes they import from the core *)
+  specs    : reg;               (* generated client packages -> declared statuses of the spec they were generated from *)
   claimed  : list str           (* clients for which some generate call has returned successfully *)
 }.
-Definition init : world := {| registry := None; aliases := None; clients := []; claimed := [] |}.
+Definition init : world := {| registry := None; aliases := None; clients := []; specs := []; claimed := [] |}.
 
 Record gen_call := { g_client : str; g_codes : list N (* declared numeric statuses *); g_force : bool }.
 
@@ -71,12 +72,17 @@ Definition codes_eqb := list_eqb N.eqb.
 Definition step_out_with (l : layout) (ex : bool) (w : world) (g : gen_call) : world * bool :=
   let c := g_client g in
   if negb (g_force g) && ex then
-    (* diff path: everything is emitted under a temporary root whose registry is empty, then
-       compared with the existing files; nothing under the project root changes.  The comparison
-       always finds a difference here: a client that was generated before differs in its rich
-       __init__.py (written only in the direct path), and a directory that only holds the core
-       lacks client.py etc. (_show_diffs reports files present on one side only) — the call raises. *)
-    (w, false)
+    (* diff path: everything is emitted under a temporary root — the temporary registry starts as a copy of
+       the existing one, so the temporary aliases are the union over all clients with this client's entry
+       replaced — then compared with the existing files in both directions; nothing under the project root
+       changes.  The call returns iff nothing differs: the client was generated from the same spec (a
+       directory that only holds the core lacks client.py etc.) and the alias classes are up to date. *)
+    let ok := amem c (clients w)
+              && match alookup c (specs w) with Some cs => codes_eqb cs (g_codes g) | None => false end
+              && opt_eqb codes_eqb (aliases w)
+                   (Some (union_codes (aset (reg_or_empty (registry w)) c (errs_of g)))) in
+    ({| registry := registry w; aliases := aliases w; clients := clients w; specs := specs w;
+        claimed := if ok then add_str c (claimed w) else claimed w |}, ok)
   else
     (* direct path: shutil.rmtree(out_dir) when it exists — this takes the core with it when the
        core lives inside this client's directory, but the registry file is read before the
@@ -86,7 +92,7 @@ Definition step_out_with (l : layout) (ex : bool) (w : world) (g : gen_call) : w
     let reg1 := if is_shared l then Some (aset (reg_or_empty reg0) c (errs_of g)) else reg0 in
     let al := if is_shared l then union_codes (reg_or_empty reg1) else errs_of g in
     ({| registry := reg1; aliases := Some al; clients := aset (clients w) c (imports_of g);
-        claimed := add_str c (claimed w) |}, true).
+        specs := aset (specs w) c (g_codes g); claimed := add_str c (claimed w) |}, true).
 
 Definition step_out (l : layout) (w : world) (g : gen_call) : world * bool :=
   step_out_with l (dir_exists l w (g_client g)) w g.
